@@ -772,11 +772,28 @@ impl<'a> Ctx<'a> {
 	/// C17 on files whose known events are longer than their version prescribes (payload sizes from the table, not
 	/// from the version): if the reader accepts them, what it writes is measured, re-read and written again.
 	pub fn c17_sizes(&self, o: &crate::gen::GenOpts, out: &mut Vec<Viol>) {
-		for extra in [1usize, 4, 9] {
+		let l = self.db.for_version(self.built.ver[0], self.built.ver[1]);
+		// the block lengths the reader accepts (from the TLA+ chain of length-gated groups) beyond the version's own
+		let starts: Vec<usize> = self.db.blocks.start_len_outcome.iter().enumerate().filter(|(n, g)| **g >= 0 && *n > l.start_len && (*n == self.db.blocks.start_len_outcome.len() - 1 || self.db.blocks.start_len_outcome[*n + 1] != **g)).map(|(n, _)| n).collect();
+		let ends: Vec<usize> = self.db.blocks.end_len_outcome.iter().enumerate().filter(|(n, g)| **g >= 0 && *n > l.end_len).map(|(n, _)| n).collect();
+		let mut variants: Vec<(usize, Option<usize>, Option<usize>)> = vec![(3, Some(l.start_len), Some(l.end_len))];
+		for e in ends.iter().take(3) {
+			variants.push((0, Some(l.start_len), Some(*e)));
+		}
+		if let Some(s0) = starts.first() {
+			variants.push((0, Some(*s0), Some(l.end_len)));
+			variants.push((2, Some(*starts.last().unwrap()), ends.last().copied().or(Some(l.end_len))));
+		}
+		for (extra, sl, el) in variants {
 			let mut oo = o.clone();
 			oo.extra = extra;
+			oo.start_len = sl;
+			oo.end_len = el;
 			let with = crate::gen::build_beh(self.db, self.beh, &oo);
 			let cls = format!("{},longer_payloads", shape_class(self.beh));
+			if std::env::var("PV_TRACE_C17").is_ok() {
+				eprintln!("c17_sizes ver={:?} extra={} start={:?} end={:?} accepted={}", self.built.ver, extra, sl, el, real::read_slp_noopts(&with.bytes).is_ok());
+			}
 			self.fixed_point_clauses(&with.bytes, None, false, &cls, out);
 		}
 	}
